@@ -4,8 +4,9 @@ Three parties run the same generated history (commands in rank/token space):
   * REAL   hypergraphx.Hypergraph objects (public API only), labels/values/weights mapped back to ranks/tokens/quanta;
   * ORACLE `PySpec` below: the property's own words - a plain dict of nodes and a dict from node sets to
             [weight, metadata] - written independently of the Lean text;
-  * MODEL  lean/Driver/C01.lean: the concrete model `C01.step` and the Lean spec `C01.Spec.step` in lock step
-            (the driver prints SPECDIFF when they differ, `chk` compares `abs concrete = spec`).
+  * MODEL  lean/Driver/C01.lean: the concrete whole-object model `C01.fstep` (tables of `C01.apply` + incidence metadata +
+            empty-hyperedge registry + the extraction routines `C01.extract`) and the Lean spec `C01.FSpec.step` in lock step
+            (the driver prints SPECDIFF when they differ, `chk` compares `fabs concrete = spec`).
 REAL != ORACLE is a violation of the property (failing input = the history);  REAL != MODEL breaks the correspondence.
 """
 import collections
@@ -55,6 +56,13 @@ RULE = ("random histories of 1-40 public calls on 2 Hypergraph slots (+1 scratch
         "and a digest of queries is asked again; at the end of a history every query with every filter order in -1..4 / "
         "size in 0..5 / up_to; thorough adds all histories of length <= 3 (unweighted; <= 2 weighted) over a "
         "26-call alphabet on 3 nodes with the boundary filters at the end. "
+        "~5% of the calls go to the two side tables of the object: set_incidence_metadata (hyperedge AS WRITTEN - a tuple in "
+        "permuted node order -, any node of the universe; present / absent hyperedges, a second call on a stored key, the "
+        "reversed spelling) and add_empty_edge (3 names; a name freed by clear() is registered again), both asked back through "
+        "get_all_incidences_metadata and get_incidence_metadata (every stored entry, its reversed spelling, absent entries); "
+        "subhypergraph / subhypergraph_by_orders / get_edges(subhypergraph=True) are run BY THE MODEL (driver command "
+        "`extract`), a quarter of the subhypergraph calls with a node list that is not clamped to the nodes at hand, ~10% of the "
+        "other two with orders and sizes both / neither given resp. order and size both given: those must raise and change nothing. "
         "A history is distinct by its canonical command text and non-trivial when it has >= 1 accepted removal and >= 1 "
         "insertion of a hyperedge that is or was present")
 ASSUMPTIONS = ["hyperedges are given as duplicate-free node collections (the quantifier says node sets)",
@@ -76,9 +84,15 @@ ASSUMPTIONS = ["hyperedges are given as duplicate-free node collections (the qua
                "OTHER container handed in or returned is the caller's and he overwrites it; subhypergraph* / "
                "get_edges(subhypergraph=True) hand the source's metadata dictionaries on to the new object (same design): when the "
                "source stays observed the caller first sets deep copies through set_node_metadata / set_edge_metadata",
-               "objects made by subhypergraph*, filters and generators are taken as they report themselves (their content is the "
-               "subject of C05 / C06 / C13); this check demands that they are consistent and behave as the abstract hypergraph "
-               "they report for the rest of the history, and that copies hold what the source holds",
+               "objects made by subhypergraph_largest_component, filters and generators are taken as they report themselves (their "
+               "content is the subject of C05 / C06 / C13); this check demands that they are consistent and behave as the abstract "
+               "hypergraph they report for the rest of the history, and that copies hold what the source holds; subhypergraph, "
+               "subhypergraph_by_orders and get_edges(subhypergraph=True) are inside the Lean model (the model is told the call and "
+               "must report the same object; the Python oracle still adopts the read-out); copies made through "
+               "expose_data_structures / the binary file format hold the node and hyperedge tables only (no incidence metadata, no "
+               "empty hyperedges: C06_hgx_roundtrip)",
+               "set_incidence_metadata gets its hyperedge as a tuple (the table is keyed by the object as written; a list is "
+               "unhashable)",
                "a call is 'rejected' when it raises any exception; exception classes are not compared"]
 TRUSTED = ["harness/c01.py PySpec: the abstract hypergraph used as the property oracle (60 lines of dict code)",
            "label genericity: the same abstract history gives the same answers whatever the labels are "
@@ -235,7 +249,17 @@ KIND = {"nodes": "comma", "nodesmeta": "semimeta", "checknode": "scalar", "numno
         "degree": "scalar", "degreeseq": "comma", "degreedist": "comma", "sizes": "comma", "orders": "comma",
         "sizedist": "comma", "maxsize": "scalar", "maxorder": "scalar", "isuniform": "scalar", "isweighted": "scalar",
         "nodemeta": "comma", "edgemeta": "comma", "allnodesmeta": "semimeta", "alledgesmeta": "semimeta",
-        "hmeta": "comma", "isolated": "comma", "isisolated": "scalar"}
+        "hmeta": "comma", "isolated": "comma", "isisolated": "scalar", "incmeta": "comma", "allincmeta": "semimeta"}
+ENAMES = ["empty-a", 0, ("e", 1)]       # names of empty hyperedges (tokens 0..2)
+
+
+def r_raw(e):
+    """a hyperedge as the caller spelled it (key of the incidence metadata table): node order kept"""
+    return ",".join(str(x) for x in e) if len(e) else "_"
+
+
+def r_incs(d):
+    return ";".join(f"{r_raw(k[0])}@{k[1]}={r_meta(m, '_')}" for k, m in d.items()) if d else "-"
 
 
 # ------------------------------------------------------------------------------------------------
@@ -254,6 +278,9 @@ class PySpec:
         self.hm = dict(hm or {})
         self.hm[0] = 1 if weighted else 0
         self.hm[1] = 2
+        self.inc = {}                        # (hyperedge as spelled, node) -> {attr: val}; never pruned
+        self.empties = {}                    # name token -> {attr: val}
+        self.old_empties = set()             # (generation only) names registered before a clear(): free again
 
     # -- mutations: each raises Rej before changing anything, or completes ---------------------
     def _add_node(self, n, md=None):
@@ -394,6 +421,15 @@ class PySpec:
             del md[c[2]]
         elif op == "clear":
             self.nodes, self.edges, self.hm = {}, {}, {}
+            self.old_empties |= set(self.empties)
+            self.inc, self.empties = {}, {}
+        elif op == "setinc":
+            self._edge_of(c[1])
+            self.inc[(tuple(c[1]), c[2])] = dict(c[3])
+        elif op == "addempty":
+            if c[1] in self.empties:
+                raise Rej
+            self.empties[c[1]] = dict(c[2])
         else:
             raise ValueError(op)
 
@@ -487,10 +523,16 @@ class PySpec:
             return r_xmetas({e: v[1] for e, v in E.items()}, r_edge)
         if name == "hmeta":
             return r_meta(self.hm)
+        if name == "incmeta":
+            k = (tuple(q[1]), q[2])
+            return r_meta(self.inc[k]) if (frozenset(q[1]) in self.edges and k in self.inc) else "rej"
+        if name == "allincmeta":
+            return r_incs(self.inc)
         raise ValueError(name)
 
     def digest(self):
-        return (self.w, sorted(self.nodes.items()), sorted((sorted(k), v[:2]) for k, v in self.edges.items()), sorted(self.hm.items()))
+        return (self.w, sorted(self.nodes.items()), sorted((sorted(k), v[:2]) for k, v in self.edges.items()), sorted(self.hm.items()),
+                sorted(self.inc.items()), sorted(self.empties.items()))
 
 
 # ------------------------------------------------------------------------------------------------
@@ -1048,6 +1090,14 @@ class Real:
             return c, lambda: h.remove_attr_from_edge_metadata(e, k)
         if op == "clear":
             return c, lambda: h.clear()
+        if op == "setinc":
+            # the table is keyed by the hyperedge AS WRITTEN (a tuple: it must be hashable) and the node
+            e, n, m = tuple(self.lab(x, P) for x in c[1]), self.lab(c[2], P), self.md(c[3])
+            return c, (lambda: h.set_incidence_metadata(e, n, m)) if v < 3 else \
+                (lambda: h.set_incidence_metadata(edge=e, node=n, metadata=m))
+        if op == "addempty":
+            name, m = copy.deepcopy(ENAMES[c[1]]), self.md(c[2])
+            return c, (lambda: h.add_empty_edge(name, m)) if v < 3 else (lambda: h.add_empty_edge(name=name, metadata=m))
         raise ValueError(op)
 
     def call(self, thunk, P):
@@ -1182,12 +1232,16 @@ class Real:
         try:
             with warnings.catch_warnings():
                 warnings.simplefilter("ignore")
-                if how == "sub":
+                if how in ("sub", "sub!"):
                     ns = [self.lab(n, P) for n in arg]
                     g = h.subhypergraph(ns if P.r.random() < 0.6 else tuple(ns))
                 elif how == "suborders":
                     orders, sizes, keep = arg
-                    kw = {"orders": list(orders)} if orders is not None else {"sizes": list(sizes)}
+                    kw = {}
+                    if orders is not None:
+                        kw["orders"] = list(orders)
+                    if sizes is not None:
+                        kw["sizes"] = list(sizes)
                     if not keep or P.r.random() < 0.5:
                         kw["keep_nodes"] = bool(keep)
                     g = h.subhypergraph_by_orders(**kw)
@@ -1508,6 +1562,13 @@ class Real:
             return r_xmetas({self.redge(e): self.rmd(tab[b]) for e, b in items}, r_edge)
         if name == "hmeta":
             return r_meta(self.rmd(h.get_hypergraph_metadata()))
+        if name == "incmeta":
+            e, n = tuple(self.lab(x, P) for x in q[1]), self.lab(q[2], P)
+            return r_meta(self.rmd(h.get_incidence_metadata(e, n) if v else h.get_incidence_metadata(edge=e, node=n)))
+        if name == "allincmeta":
+            res = h.get_all_incidences_metadata()
+            return self._mine(P, res, lambda res: r_incs({(tuple(self.rk(x) for x in k[0]), self.rk(k[1])): self.rmd(m)
+                                                          for k, m in res.items()}), hold=False)
         if name == "isolated":
             a, kw = self._fargs(name, q[1], P, False)
             if v == 0 and not a:
@@ -1608,6 +1669,10 @@ def op_line(i, c):
         a = f"{w_nats(c[1])} {c[2]}"
     elif op == "clear":
         return f"op {i} clear"
+    elif op == "setinc":
+        a = f"{w_nats(c[1])} {c[2]} {w_meta(c[3])}"
+    elif op == "addempty":
+        a = f"{c[1]} {w_meta(c[2])}"
     else:
         raise ValueError(op)
     return f"op {i} {op} {a}"
@@ -1619,6 +1684,8 @@ def q_line(i, q):
         return f"q {i} {name} {q[1]}"
     if name in ("checkedge", "weight", "edgemeta"):
         return f"q {i} {name} {w_nats(q[1])}"
+    if name == "incmeta":
+        return f"q {i} incmeta {w_nats(q[1])} {q[2]}"
     if name in ("edges", "edgesmeta", "numedges", "weights", "weightsdict", "degreeseq", "degreedist", "isolated"):
         return f"q {i} {name} {w_filter(q[1])}"
     if name in ("incident", "neighbors", "degree", "isisolated"):
@@ -1630,7 +1697,7 @@ def q_line(i, q):
 # query sets
 
 PLAIN = ["nodes", "nodesmeta", "numnodes", "len", "iter", "sizes", "orders", "sizedist", "maxsize", "maxorder",
-         "isuniform", "isweighted", "allnodesmeta", "alledgesmeta", "hmeta"]
+         "isuniform", "isweighted", "allnodesmeta", "alledgesmeta", "hmeta", "allincmeta"]
 EDGE_F = ["edges", "edgesmeta", "numedges", "weights", "weightsdict"]
 NODE_F = ["incident", "neighbors", "degree", "isisolated"]
 ALLN_F = ["degreeseq", "degreedist", "isolated"]
@@ -1955,6 +2022,27 @@ class Gen:
             return self.weight_op(spec)
         r = rng.random() * 100
         bad = rng.random() < 0.12
+        free = sorted(spec.old_empties - set(spec.empties))
+        if free and rng.random() < 0.25:
+            # a name that was registered before the last clear() must be free again
+            return ("addempty", rng.choice(free), gen_meta(rng, allow_none=False))
+        if (spec.empties or spec.inc) and rng.random() < 0.03:
+            return ("clear",)
+        if rng.random() < 0.045:
+            # the other two tables of the object: incidence metadata (keyed by the hyperedge as written) and empty hyperedges
+            if rng.random() < 0.7:
+                if spec.inc and rng.random() < 0.35:
+                    e, n = rng.choice(sorted(spec.inc))          # second call on a key: replaces
+                    if rng.random() < 0.3:
+                        e = tuple(reversed(e))
+                else:
+                    e, n = self.edge(spec, present=not bad), rng.randrange(self.n)
+                return ("setinc", tuple(e), n, gen_meta(rng, allow_none=False))
+            if (spec.empties or spec.inc) and rng.random() < 0.25:
+                return ("clear",)                             # clear() empties both tables: a name is free again
+            free = sorted(spec.old_empties - set(spec.empties))
+            name = rng.choice(free) if free and rng.random() < 0.7 else rng.randrange(len(ENAMES))
+            return ("addempty", name, gen_meta(rng, allow_none=False))
         if rng.random() < 0.03:
             # a listing of the library handed straight back to it
             return rng.choice([("rmedges*", rng.choice(FILTERS) + (rng.random() < 0.5,)), ("rmedges*", (None, None, False)),
@@ -2072,16 +2160,23 @@ class Gen:
         if how == "sub":
             ns = sorted(spec.nodes)
             rng.shuffle(ns)
-            return ("derive", i, how, ns[:rng.randint(max(0, len(ns) - 2), len(ns))])
+            ns = ns[:rng.randint(max(0, len(ns) - 2), len(ns))]
+            if rng.random() < 0.25:
+                # not clamped to the nodes at hand: an absent node makes get_node_metadata raise; a node listed twice is fine
+                ns.insert(rng.randint(0, len(ns)), rng.randrange(self.n))
+                return ("derive", i, "sub!", ns)
+            return ("derive", i, how, ns)
         if how == "suborders":
             xs = [rng.randint(-1, 3) for _ in range(rng.randint(1, 3))]
+            if rng.random() < 0.12:
+                return ("derive", i, how, (None, None, rng.random() < 0.6) if rng.random() < 0.5 else (xs, [x + 1 for x in xs], rng.random() < 0.6))
             if rng.random() < 0.5:
                 return ("derive", i, how, (xs, None, rng.random() < 0.6))
             return ("derive", i, how, (None, [x + 1 for x in xs], rng.random() < 0.6))
         if how == "sublcc":
             return ("derive", i, how, None)
         if how == "edgesub":
-            f = rng.choice(FILTERS)
+            f = rng.choice(FILTERS) if rng.random() < 0.9 else (rng.randint(0, 3), rng.randint(1, 4))
             return ("derive", i, how, (f[0], f[1], rng.random() < 0.5, rng.random() < 0.5))
         if how == "filter":
             def crit():
@@ -2177,6 +2272,10 @@ def fix_cmd(c):
             o[1] = tuple(o[1]); o[2] = fm(o[2])
         elif o[0] == "sethmeta":
             o[1] = fm(o[1])
+        elif o[0] == "setinc":
+            o[1] = tuple(o[1]); o[3] = fm(o[3])
+        elif o[0] == "addempty":
+            o[2] = fm(o[2])
         c[2] = tuple(o)
     elif c[0] == "new":
         c[3] = fm(c[3]) or {}
@@ -2193,7 +2292,7 @@ def fix_cmd(c):
             a = (fc(a[0]), fc(a[1]), a[2], a[3])
         elif c[2] == "random":
             a = (a[0], {int(k): v for k, v in a[1].items()}, a[2])
-        elif isinstance(a, list) and c[2] != "sub":
+        elif isinstance(a, list) and c[2] not in ("sub", "sub!"):
             a = tuple(a)
         c[3] = a
     return tuple(c)
@@ -2304,6 +2403,10 @@ def run_history(case, drv, rng, stats=None, full_every=False, small=False):
         lines.clear(); expect.clear()
 
     def queries(i, qs, step):
+        # every stored incidence entry under its own spelling and under the reversed one (another key), + one absent entry
+        qs = list(qs) + [("incmeta", k[0], k[1]) for k in specs[i].inc] \
+            + [("incmeta", tuple(reversed(k[0])), k[1]) for k in specs[i].inc] \
+            + [("incmeta", tuple(e), 0) for e in pool[:2]]
         for rnd, batch in ((0, qs), (1, digest_queries(n) if real.pres is not None else [])):
             for q in batch:
                 kind = KIND[q[0]]
@@ -2430,7 +2533,15 @@ def run_history(case, drv, rng, stats=None, full_every=False, small=False):
             specs[j] = copy.deepcopy(specs[i])
             if j < 2:
                 ever[j] = set(ever[i]) if i < 2 else set()
-            lines.append(f"copy {i} {j}"); expect.append(("ctl", "ok" if ok else "rej", None))
+            if how in ("expose", "hgx"):
+                # expose_data_structures() (also what the binary file format stores, see C06_hgx_roundtrip) lists neither the
+                # incidence metadata nor the empty hyperedges: the rebuilt object holds the node / hyperedge tables only
+                # (model: fresh object that takes the tables of slot i)
+                specs[j].inc, specs[j].empties = {}, {}
+                lines.append(f"new {j} 0 -"); expect.append(("ctl", "ok", None))
+                lines.append(f"rebase {i} {j}"); expect.append(("ctl", "ok" if ok else "rej", None))
+            else:
+                lines.append(f"copy {i} {j}"); expect.append(("ctl", "ok" if ok else "rej", None))
             if not ok:
                 raise Problem("violation", f"step {step}: making a copy of the hypergraph ({how}) raised", step)
             queries(j, light_queries(rng, n, pool), step)
@@ -2484,6 +2595,30 @@ def run_history(case, drv, rng, stats=None, full_every=False, small=False):
             P = real.P(step, repr(c))
             if stats is not None:
                 stats["start:" + how] = stats.get("start:" + how, 0) + 1
+            # the three extraction routines of core/hypergraph.py are INSIDE the model: it is told the call, not the result
+            xline, must_raise = None, False
+            if how in ("sub", "sub!"):
+                xline = f"extract {src} {i} sub {w_nats(arg)}"
+                must_raise = any(x not in specs[src].nodes for x in arg)
+            elif how == "suborders":
+                xline = (f"extract {src} {i} orders {w_opt(arg[0], w_nats)} {w_opt(arg[1], w_nats)} {1 if arg[2] else 0}")
+                must_raise = (arg[0] is None) == (arg[1] is None)
+            elif how == "edgesub":
+                xline = f"extract {src} {i} edges {w_filter((arg[0], arg[1], arg[2]))} {1 if arg[3] else 0}"
+                must_raise = arg[0] is not None and arg[1] is not None
+            if must_raise:
+                before_obj = real.slots[i]
+                bad = real.derive(src, how, arg, P, i)
+                if stats is not None:
+                    stats["extraction_rejected"] = stats.get("extraction_rejected", 0) + 1
+                if not bad or not bad.startswith("raised"):
+                    raise Problem("violation", f"step {step}: {how} {arg!r} must raise (absent node / orders and sizes both or "
+                                               f"neither given / order and size both given) but it {bad or 'returned a hypergraph'}", step)
+                real.slots[i] = before_obj
+                lines.append(xline); expect.append(("ctl", "rej", None))
+                queries(src, light_queries(rng, n, pool), step)
+                flush(step)
+                continue
             bad = real.derive(src, how, arg, P, i)
             if bad:
                 raise Problem("violation", f"step {step}: {how} {arg!r} on a hypergraph of the history {bad}", step)
@@ -2498,15 +2633,28 @@ def run_history(case, drv, rng, stats=None, full_every=False, small=False):
             sp.hm = dict(hm)
             sp.nodes = {x: dict(m) for x, m in nodes.items()}
             sp.edges = {frozenset(e): [q if w else ONE, dict(m), pv if w else 1] for e, q, m, pv in edges}
+            if how in ("filter", "addrand"):
+                # the object itself changed in place, or a copy() of it: both other tables stay
+                sp.inc, sp.empties = copy.deepcopy(specs[src].inc), copy.deepcopy(specs[src].empties)
             specs[i] = sp
             if i < 2:
                 ever[i] = set(sp.edges)
-            init = [f"new 2 {1 if w else 0} -", f"op 2 sethmeta {w_meta(hm)}"]
-            init += [op_line(2, ("addnode", x, m)) for x, m in nodes.items()]
-            if edges:
-                init.append(op_line(2, ("addedges", [e for e, _, _, _ in edges], [q for _, q, _, _ in edges] if w else None,
-                                        [m for _, _, m, _ in edges])))
-            init.append(f"copy 2 {i}")
+            if xline is not None:
+                if stats is not None:
+                    stats["extraction_in_model"] = stats.get("extraction_in_model", 0) + 1
+                init = [xline]
+            else:
+                init = [f"new 2 {1 if w else 0} -", f"op 2 sethmeta {w_meta(hm)}"]
+                init += [op_line(2, ("addnode", x, m)) for x, m in nodes.items()]
+                if edges:
+                    init.append(op_line(2, ("addedges", [e for e, _, _, _ in edges], [q for _, q, _, _ in edges] if w else None,
+                                            [m for _, _, m, _ in edges])))
+                if how in ("filter", "addrand"):
+                    if src != i:
+                        init.append(f"copy {src} {i}")
+                    init.append(f"rebase 2 {i}")
+                else:
+                    init.append(f"copy 2 {i}")
             for ln in init:
                 lines.append(ln); expect.append(("ctl", "ok", None))
             queries(i, light_queries(rng, n, pool), step)
@@ -2587,7 +2735,9 @@ def approx_derive(spec, how, arg, n):
     absent members (the run takes the content from the object itself)"""
     t = copy.deepcopy(spec)
     try:
-        if how == "sub":
+        if how == "sub!" and any(x not in t.nodes for x in arg):
+            return spec
+        if how in ("sub", "sub!"):
             keep = set(arg)
             t.nodes = {x: m for x, m in t.nodes.items() if x in keep}
             t.edges = {k: v for k, v in t.edges.items() if k <= keep}
@@ -2707,7 +2857,7 @@ def alphabet3():
          ("rmedge", (1, 0)), ("rmedge", (2, 1, 0)), ("rmedges", [(0, 1), (1, 2)]), ("rmedges", [(0, 1), (1, 0)]),
          ("rmnode", 0, False), ("rmnode", 0, True), ("rmnode", 1, True), ("rmnodes", [0, 1], True), ("rmnodes", [2, 2], False),
          ("addnode", 2, {2: 4}), ("addnodes", [0, 2], {0: {}}), ("setw", (0, 1), 8), ("setw", (1, 0), ONE),
-         ("attre", (1, 0), 2, 3), ("delattre", (0, 1), 2), ("delattrn", 2, 2), ("clear",)]
+         ("attre", (1, 0), 2, 3), ("delattre", (0, 1), 2), ("delattrn", 2, 2), ("clear",), ("setinc", (1, 0), 2, {2: 4})]
     return A
 
 
